@@ -231,6 +231,12 @@ func init() {
 		"verifNative": func(w *Worker, _ *frame, _ *ssa.Function, a []Value) Value {
 			return w.TF.False
 		},
+		// verifYield runs the goroutines queued by the sequential goroutine model
+		// (used by stubs of blocking primitives, e.g. a pipe read on an empty
+		// buffer); reports whether any ran
+		"verifYield": func(w *Worker, _ *frame, _ *ssa.Function, a []Value) Value {
+			return w.TF.Bool(w.runPending())
+		},
 		"verifHashBytes": func(w *Worker, _ *frame, fn *ssa.Function, a []Value) Value {
 			// injective-function stub: verifHashBytes(fnName string, outLen int, in []byte) []byte
 			name := w.concStr(a[0], "hash name")
